@@ -27,9 +27,13 @@ EXTENDS Integers, Sequences, FiniteSets, TLC
 
 CONSTANTS Ns,       \* sizes of the handle table (cfg.n)
           Vals,     \* values stored (positive integers)
+          Ops,      \* operations Next issues (AllOps, or a subset to focus a bigger handle table)
           Recycle,  \* TRUE: Next contains the harness-level stimulus Forget (frees handle ids)
           Deep      \* TRUE: Next keeps exploring after a list was tainted by a stale handle
 ASSUME 0 \notin Vals
+AllOps == {"PushFront", "PushBack", "InsertBefore", "InsertAfter", "Remove", "MoveToFront", "MoveToBack",
+           "MoveBefore", "MoveAfter", "PushBackList", "PushFrontList", "Init", "ForEach", "ForEachReverse"}
+ASSUME Ops \subseteq AllOps
 
 VARIABLES cfg, hp, stale, taint, ev
 vars == <<cfg, hp, stale, taint, ev>>
@@ -217,6 +221,7 @@ Need(s) == CASE s.op \in {"PushFront", "PushBack"} -> 1
              [] OTHER -> 0
 
 Enabled(s) ==
+  /\ (s.op \in Ops \/ s.op = "Forget")
   /\ Need(s) <= Cardinality(Free(hp))                  \* enough handle ids left
   /\ (s.op \in {"PushBackList", "PushFrontList"} => {s.l, s.o} \cap taint = {})
   /\ (s.op = "Forget" => ForgetGroup(s.h) # {})
